@@ -4,6 +4,11 @@ import json, subprocess
 
 # id: (level, engine, technique, level text, level note, design ref)
 CHECKS = {
+ "C13": ("exploration", "space",
+         "complete enumeration of projection aspect x ellipsoid x shared-parameter alphabet x fixed lattice; each relation is a differential check between two parameterisations of the real code",
+         "For every projection aspect of the table (merc, tmerc, btmerc, lcc, laea, omerc, somerc; 38 aspects) x ellipsoids (quick 2, thorough all instantiable built-ins): false origin (3 values), lon_0/lonc (3 values, lattice re-centred), k_0 (2 values, with offsets), doubling the semi-major axis; utm == tmerc and butm == btmerc for all 60 zones x both hemispheres (forward and inverse); merc == webmerc on two spheres; lat_ts == the corresponding k_0 (4 latitudes); lcc 1SP == 2SP with equal parallels (3 cones); the five noop aliases on all 169 value pairs of the special-value alphabet in four wrappings.",
+         "Differential oracle: a defect that is identical in both parameterisations is invisible here (C01/C05/C14 cover those). Coverage is the stated lattice.",
+         "DESIGN.md §3 C13"),
  "C01": ("exploration", "space",
          "complete enumeration of operator aspect x ellipsoid x a fixed deterministic lattice x both round-trip orders; wrapper forms compared bit for bit with the plain operator",
          "48 projection aspects (merc x5, webmerc, tmerc x3, utm/butm zones x hemispheres, btmerc, lcc 1SP/2SP north/south, laea oblique/equatorial/polar N/S, omerc A/B/Laborde, somerc) x 6 built-in ellipsoids (thorough: all instantiable table entries) x a lattice of every special latitude/longitude offset visible in the code plus a uniform step (quick 7.5x15 deg, thorough 0.5x2 deg) clipped to the documented domain, heights and epochs varying; cart at 7 heights, 8 helmert forms, molodensky x5, latitude x6, permtide x9, exact conversions, dm/dms, geodesic reversible, grid shifts and deformation inside coverage of the shipped grids, four whole pipelines; both fwd->inv (ground distance on the ellipsoid) and inv->fwd (metres); counts must equal the set size, the epoch must come back bit-identical; eight wrapper forms (inv prefix/infix/suffix, one-step pipeline, macro body, inverted macro) must be bit-identical to the plain operator (directions exchanged where applicable). Built-in names absent from the catalogue are printed as UNCOVERED.",
@@ -92,7 +97,7 @@ def main():
             "add_only": True,
         },
         "engines": [
-            {"name": "space", "path": "/verif/mc/src/engine.rs", "kind_free_text": "exhaustive mixed-radix product enumeration on 16 threads (par_range/decode)", "serves_properties": ["C01", "C11", "C16", "C19"]},
+            {"name": "space", "path": "/verif/mc/src/engine.rs", "kind_free_text": "exhaustive mixed-radix product enumeration on 16 threads (par_range/decode)", "serves_properties": ["C01", "C11", "C13", "C16", "C19"]},
             {"name": "explore", "path": "/verif/mc/src/props", "kind_free_text": "explicit-state / program-tree exploration of the real API against reference models written in Rust", "serves_properties": ["C02", "C03", "C04", "C12", "C17", "C18"]},
             {"name": "sched", "path": "/verif/mc/src/props/c18.rs", "kind_free_text": "shuttle DfsScheduler over real threads sharing Plain contexts and the process-wide grid cache; yield points from hook H4", "serves_properties": ["C18"]},
             {"name": "workers", "path": "/verif/mc/src/engine.rs", "kind_free_text": "worker subprocesses (2 MiB stack, 4 GiB address space, watchdog) for hang / overflow / abort detection", "serves_properties": ["C04"]},
